@@ -771,17 +771,22 @@ type idleTracker struct {
 	gid   uint64
 }
 
-// parked: the goroutine is in a blocking wait of any kind – channel send/receive, select, mutex,
-// RWMutex, Cond, WaitGroup, semaphore, … No rule depends on WHICH primitive it is: everything that
-// is not known to be running, runnable, sleeping on a timer of its own (harness jitter) or in a
-// system call counts as parked, including states this code has never seen.
+// parked: the goroutine is in a blocking wait of user level, of any kind – channel send/receive,
+// select, mutex, RWMutex, Cond, WaitGroup, semaphore below package sync, … No rule depends on WHICH
+// primitive it is. Known by the state prefix ("chan ", "select", "sync.") or, for any other wait
+// reason (e.g. "semacquire", or one this code has never seen), by the innermost visible frame being
+// a function of package sync. Waits that the runtime imposes on a goroutine in the middle of user
+// code (a goroutine that starts a GC cycle blocks in "semacquire" on the world semaphore, GC assist,
+// …) have no such frame: they are transient and count as not parked, which only defers a decision.
 func parked(g gdump.G) bool {
 	switch st := g.State; {
 	case st == "", st == "running", st == "runnable", st == "syscall", st == "sleep", st == "IO wait",
 		st == "preempted", st == "copystack", strings.HasPrefix(st, "GC "), strings.HasPrefix(st, "finalizer"):
 		return false
+	case strings.HasPrefix(st, "chan "), strings.HasPrefix(st, "select"), strings.HasPrefix(st, "sync."):
+		return true
 	}
-	return true
+	return len(g.Frames) > 0 && strings.HasPrefix(g.Frames[0], "sync.")
 }
 
 // libParked: parked, and the innermost frame that belongs to the harness or to hive.go is a function
